@@ -31,6 +31,19 @@ RESULTS = {
                                                        ("C06", "quick", "VIOLATION", "kani vk_lat coll3::atomize_map_union_any_value_iterator (added because of this seed) clauses C06:map_union_atoms_are_exactly_key_times_value_atoms, C06:map_union_yields_every_value_atom_under_its_key")]),
     "C36-merge-ordered-hook-fast-path-swapped": ("C36", [("C36", "quick", "VIOLATION", "kani vk_sim sim::runtime::harness::merge_ordered_inline_0_2 clause C36:decision_conserves_item_count (replayed natively)")]),
     "C36-run-hooks-trivial-decision-overwrites-manual": ("C36", [("C36", "quick", "VIOLATION", "kani vk_sim sim::compiled::harness::run_hooks_n1/n2/n3 clause C36:run_hooks_decides_each_undecided_hook_once")]),
+    "C11-chain-pending-first-treated-as-ended": ("C11", [("C11", "quick", "VIOLATION", "kani ov_pipes pull::chain::vk_harness::chain_step clause C11:chain_polls_second_exactly_when_first_has_ended (the change adds a field to Chain; the harness builds it with Chain::new, so it still compiles)")]),
+    "C11-cross-singleton-item-pulled-before-singleton": ("C11", [("C11", "quick", "VIOLATION", "kani ov_pipes cross_singleton_step clause C11:cross_singleton_no_items_consumed_before_singleton")]),
+    "C11-zip-size-hint-buffer-on-wrong-side": ("C11", [("C11", "quick", "VIOLATION", "kani ov_pipes pull::zip::vk_harness::zip_size_hint clause C11:zip_size_hint_brackets_remaining")]),
+    "C12-persist-replay-index-advanced-before-ready": ("C12", [("C12", "quick", "VIOLATION", "kani ov_pipes push::persist::vk_harness::persist_push_ready_loop clause C12:persist_replay_index_counts_replayed_items")]),
+    "C12-fold-keyed-flush-marker-reset-on-pending-finalize": ("C12", [("C12", "quick", "missed", "FoldKeyed is only in the thorough tier (real std HashMap, one key)"),
+                                                                      ("C12", "thorough", "VIOLATION", "kani ov_pipes push::fold_keyed::vk_slow::fold_keyed_finalize_history_trace clause C12:never_sends_after_finalizing")]),
+    "C14-flat-map-pair-taken-before-ready": ("C14", [("C14", "quick", "VIOLATION", "kani ov_sink flat_map_sink_drain_loop clause C14:flat_map_buffer_empty_only_after_everything_was_delivered")]),
+    "C14-unzip-ready-when-only-one-sink-ready": ("C14", [("C14", "quick", "VIOLATION", "kani ov_sink unzip::vk_harness::unzip_sink_step clause C14:unzip_ready_iff_both_ready")]),
+    "C15-merge-source-early-return-skips-cleanup": ("C15", [("C15", "quick", "VIOLATION", "kani vk_merge merge_one_poll_n2/n3/n4 clauses C15:all_entries_some_after_poll, C15:ended_sources_and_only_those_removed (6 violations)")]),
+    "C13-join-early-end-skips-rhs": ("C13", [("C13", "quick", "VIOLATION", "kani ov_pipes symmetric_hash_join_history_set_trace / _multiset_trace clause C13:join_ends_only_when_both_sides_ended")]),
+    "C13-half-set-state-build-occupied-returns-false": ("C13", [("C13", "thorough", "missed", "the changed branch (a second value for an existing key) needs a second table operation on the real HalfSetJoinState, outside CBMC's reach; the one-pair harness cannot see it, and the orchestration harness runs against the reference state")]),
+    "C17-union-find-path-halving-returns-grandparent": ("C17", [("C17", "quick", "UNDECIDED", "find was rewritten (iterative path halving): the anchors of the inserted proof are gone, exit 2; no Kani twin exists for slotmap, so the wrong result is not decided")]),
+    "C17-subgraph-merge-window-excludes-start": ("C17", [("C17", "quick", "missed", "SubgraphMerge::try_merge is in the part of C17 the claim lists as NOT covered")]),
     "C10-counted-hash-set-eq-ignores-counts": ("C10", [("C10", "quick", "missed", "VariadicCountedHashSet is hashbrown-backed: outside CBMC's reach, documented as not covered (DESIGN.md section 5, C10)")]),
 }
 EXTRA = '/verif/seeded/results_extra.json'
